@@ -483,7 +483,7 @@ impl FixedMethod {
                         break;
                     }
 
-                    if index == 0 || chandra {
+                    if index == 0 || (chandra && index == 1) {
                         vowel = true;
                         step += 1;
                         continue;
